@@ -308,6 +308,23 @@ func c11Scenarios(tier string) []Spec {
 			specs = append(specs, Spec{HBCache: true, RaceBound: 0, Shards: 1, Sc: makeLoad("C11", ls, judgeC11)})
 		}
 	}
+	// (1b) two missing blocks on a longer chain: skip references are what bridges two adjacent gaps
+	{
+		sh := "chain8" // long enough that an entry in the middle is linked from exactly one entry two gaps away
+		devb := 2
+		if tier == "thorough" {
+			devb = 3
+		}
+		n := len(getStoredLen(sh))
+		for a := 0; a < n; a++ {
+			for b := a + 1; b < n; b++ {
+				for _, c := range []int{2} {
+					ls := loadSpec{Shape: sh, Loader: "fetchall", Conc: c, N: -1, Faults: map[int]int{a: int(store.Absent), b: int(store.Absent)}}
+					specs = append(specs, Spec{DevBound: devb, Shards: 2, NoRace: true, Sc: makeLoad("C11", ls, judgeC11)})
+				}
+			}
+		}
+	}
 	// (2) every assignment (any number of faults) on the default schedule, all loaders
 	var batch []sched.Scenario
 	bshapes := []string{"chain3", "chain4", "fork", "diamond"}
@@ -340,3 +357,36 @@ func init() {
 var _ = seqx.Shapes
 var _ = sort.Strings
 var _ = strings.Join
+
+// ---------------------------------------------------------------------------
+// C12 (scheduler part): stored logs containing undecodable blocks, loaded under the controlled scheduler
+// with the race detector attached: a crash of the process through unsynchronised fetcher state is a data
+// race first. Single and paired undecodable / not-an-entry blocks on the small shapes, all four loaders.
+
+func c12Scenarios(tier string) []Spec {
+	var specs []Spec
+	shapes := []string{"fork", "diamond"}
+	if tier == "thorough" {
+		shapes = []string{"chain3", "chain4", "fork", "diamond", "heads3"}
+	}
+	for _, sh := range shapes {
+		n := len(getStoredLen(sh))
+		for a := 0; a < n; a++ {
+			for b := a; b < n; b++ {
+				for _, kind := range []store.Fault{store.Garbage, store.NotEntry} {
+					fs := map[int]int{a: int(kind)}
+					if b != a {
+						fs[b] = int(store.Garbage)
+					}
+					for _, ld := range []string{"multihash", "entry"} {
+						ls := loadSpec{Shape: sh, Loader: ld, Conc: 2, N: -1, Faults: fs}
+						specs = append(specs, Spec{HBCache: true, RaceBound: 1, Shards: 1, Sc: makeLoad("C12", ls, judgeC11)})
+					}
+				}
+			}
+		}
+	}
+	return specs
+}
+
+func init() { register(&Check{ID: "C12", Scenarios: c12Scenarios}) }
